@@ -65,14 +65,16 @@ def decOpts (j : Json) : Opts :=
     invalidItems := (decPolicy (fld j "invalid_items")).getD .throw,
     invalidKeys := (decPolicy (fld j "invalid_keys")).getD .throw,
     invalidValues := (decPolicy (fld j "invalid_values")).getD .throw,
-    dfs := bool! (fld j "dfs") }
+    dfs := bool! (fld j "dfs"),
+    maxParams := optNat (fld j "max_params"), minParams := optNat (fld j "min_params") }
 
 def decField (j : Json) : FieldDecl :=
   { name := str! (fld j "name"),
     ty := if isNull (fld j "ty") then none else some (decTy (fld j "ty")),
     required := bool! (fld j "required"),
     default := (obj? j "default").map decVal,
-    onError := decPolicy (fld j "on_error") }
+    onError := decPolicy (fld j "on_error"),
+    deps := (arr! (fld j "deps")).map str! }
 
 def decMode (j : Json) : Mode :=
   match arr! j with
@@ -83,6 +85,7 @@ def kindName : Kind → String
   | .parse => "ParseError" | .absence => "AbsenceError" | .exceed => "ExceedError"
   | .tupleExceed => "TupleExceedError" | .constraint => "ConstraintError" | .oneOf => "OneOfViolatedError"
   | .negate => "NegateViolatedError" | .collected => "CollectedParseError" | .other => "other"
+  | .paramsExceed => "ParamsExceedError" | .paramsLack => "ParamsLackError" | .depsAbsence => "DependenciesAbsenceError"
 
 def encErr (e : Err) : Json :=
   Json.arr #[Json.str (kindName e.kind), match e.item with | some i => Json.str i | none => Json.null]
@@ -210,6 +213,19 @@ def handle (j : Json) : Json :=
   | some ops => Json.mkObj [("ctx", ctxOps (decMode (fld j "mode")) (arr! ops))]
   | none =>
   let T := decTables j
+  match obj? j "type" with
+  | some tj =>
+    -- a bare type called on a value: the error list of that level is visible
+    let ty := decTy tj
+    let o := decOpts (fld j "opts")
+    let v := decVal (fld j "value")
+    let modes := (arr! (fld j "modes")).map decMode
+    let go (W : World) : Json :=
+      Json.mkObj [("runs", Json.arr (modes.map fun m => encRes encVal (runType W fuel ty m o v)).toArray)]
+    let a := go (mkWorld T none)
+    let b := go (mkWorld T (some missVal))
+    Json.mkObj [("model", a), ("miss", Json.bool (a.compress != b.compress))]
+  | none =>
   let decl := (arr! (fld j "decl")).map decField
   let o := decOpts (fld j "opts")
   let data : Data := (arr! (fld j "data")).map fun p => match arr! p with
